@@ -51,6 +51,30 @@ class Potentials(Monitor):
             return 10.0 ** self.rng.uniform(-12.0, -6.0)          # small budgets
         return 1.0 - 10.0 ** self.rng.uniform(-16.0, -4.0)        # budgets up to about 37 / beta
 
+    def _tiny_budget(self, potential, args, kwargs):
+        """The class of inputs of the known finding C02-tiny-budget: an energy budget below 1e-12, or below 1e-13 of
+        the magnitude of the pair energy at the start (what double precision resolves of the energy there)."""
+        budget = kwargs.get("potential_change", args[-1] if args else None)
+        if not isinstance(budget, float) or len(args) + len(kwargs) <= 2:
+            return False
+        if budget < 1e-12:
+            return True
+        try:
+            ref, _ = self._ref(potential)
+            if ref is None or not hasattr(ref, "energy"):
+                return False
+            separation = args[1]
+            rest = [x for x in args[2:] if isinstance(x, (int, float))]
+            if "potential_change" not in kwargs and rest:
+                rest.pop()
+            c = 1.0
+            for charge in rest:
+                c *= charge
+            energy = abs(ref.energy(math.sqrt(sum(x * x for x in separation)), c))
+        except Exception:
+            return False
+        return budget < 1e-13 * energy
+
     def _ref(self, potential):
         key = id(potential)
         if key not in self.refs:
@@ -67,8 +91,7 @@ class Potentials(Monitor):
                 detail = {"potential": potential.__class__.__name__, "error": repr(exc)[:300],
                           "args": repr(args)[:600], "kwargs": repr(kwargs)[:200]}
                 if name == "displacement":
-                    budget = kwargs.get("potential_change", args[-1] if args else None)
-                    detail["tiny_budget"] = bool(isinstance(budget, float) and budget < 1e-12)
+                    detail["tiny_budget"] = self._tiny_budget(potential, args, kwargs)
                 ctx.violation(prop, name + "_raised", detail)
             return
         self.calls += 1
@@ -85,11 +108,9 @@ class Potentials(Monitor):
             ctx.violation("C02", "displacement_not_a_float", {"potential": potential.__class__.__name__,
                                                              "returned": repr(result)})
         if math.isnan(result):
-            budget = kwargs.get("potential_change", args[-1])
             ctx.violation("C02", "displacement_is_nan",
                           {"potential": potential.__class__.__name__, "args": repr(args)[:600],
-                           "tiny_budget": bool(isinstance(budget, float) and budget < 1e-12
-                                               and len(args) + len(kwargs) > 2)})
+                           "tiny_budget": self._tiny_budget(potential, args, kwargs)})
         ref, params = self._ref(potential)
         label = potential.__class__.__name__
         if "HardSpherePotential" in names:
@@ -133,10 +154,9 @@ class Potentials(Monitor):
             ctx.probes["c02_unreferenced_" + label] += 1
             return
         if problem is not None:
-            budget = kwargs.get("potential_change", args[-1])
             ctx.violation("C02", problem[0], dict(problem[1], potential=label, velocity=list(velocity),
                                                   arguments=repr(args[1:])[:500], kwargs=repr(kwargs)[:200],
-                                                  tiny_budget=bool(isinstance(budget, float) and budget < 1e-12)))
+                                                  tiny_budget=self._tiny_budget(potential, args, kwargs)))
         ctx.probes["c02_displacements_checked"] += 1
 
     # -- C03 ------------------------------------------------------------------------------------------------------------
